@@ -180,3 +180,58 @@ def register2(R):
 def _reg_all(R):
     register(R)
     register2(R)
+
+
+# ------------------------------------------------------------------------------------------------ C17 / C14: walk, lookup, path text
+def run_walk(repo, tier, seed, only=None):
+    ay = load(repo)
+    from awesomeyaml.nodes.node_path import NodePath
+    from awesomeyaml.nodes.composed import ComposedNode
+    rng = random.Random(17000 + seed)
+    R = Runner('walk')
+    for _ in range(n_cases(tier, 200, 3000)):
+        g = G.Gen(rng, tags=('force', 'del', 'merge'), p_tag=0.2, int_keys=True)
+        text = G.render(g.map(3, top=True))
+        if rng.random() < 0.4:
+            text = text[:-1] + (', ' if len(text) > 2 else '') + "c0: !call:builtins.dict {x: [1, {y: 2}]}, p0: !path [a, b], r0: !required}"
+        try:
+            b = ay.Builder()
+            b.add_source(text, raw_yaml=True)
+            root = b.stages[0]
+        except Exception:
+            continue
+        R.case(text, {'doc': text})
+        # reference enumeration straight from the child view
+        ref = []
+
+        def walk(n, p):
+            for k, c in n.__dict__['_children'].items():
+                ref.append((tuple(p + [k]), id(c)))
+                if isinstance(c, ComposedNode):
+                    walk(c, p + [k])
+        walk(root, [])
+        got = [(tuple(p), id(n)) for p, n in root.ayns.nodes_with_paths()]
+        if sorted(got, key=repr) != sorted(ref, key=repr) or len(got) != len(set(i for _, i in got)):
+            R.fail('bounded:C14+C17.tree-walk-yields-every-node-exactly-once-with-its-path', f'doc={text!r}: walk {len(got)} entries, reference {len(ref)}', {'family': 'walk', 'docs': [text]})
+        for p, n in root.ayns.nodes_with_paths():
+            if root.ayns.get_node(p) is not n:
+                R.fail('bounded:C17.node-reported-by-the-walk-is-the-one-found-at-its-path', f'doc={text!r}: path {list(p)!r}', {'family': 'walk', 'docs': [text]})
+                break
+            s = NodePath.get_str_path(p)
+            back = list(NodePath.get_list_path(s))
+            if back != list(p) and all(isinstance(x, int) or (isinstance(x, str) and x.replace('_', 'a').isalnum()) for x in p):
+                R.fail('bounded:C17.path-converted-to-text-and-parsed-back-is-unchanged', f'path {list(p)!r} -> {s!r} -> {back!r}', {'family': 'walk', 'docs': [text]})
+                break
+    return R.result()
+
+
+def register3(R):
+    R.tasks.append(Bounded('bounded:C17-walk-lookup-and-path-text', ('C17', 'C14'), run_walk,
+                           'parsed documents of depth<=3 with mapping, list, function, path and placeholder nodes; quick 200 / thorough 3000 trees; path components alphanumeric names and integers',
+                           stands_in_for='ComposedNode.nodes_with_paths (nested generator loops; its contract is ASSUMED by Config.check_missing and _require_all_new), get_node/_get_node, NodePath.split_path/join_path (regular expressions)'))
+
+
+def _reg_all(R):
+    register(R)
+    register2(R)
+    register3(R)
